@@ -521,6 +521,7 @@ type FuncResult struct {
 	Trusted     bool
 	Uses        []string
 	Params      []ParamVal
+	FeasibleReturns, ReturnPaths int
 	x           *Exec
 }
 
@@ -551,6 +552,7 @@ func (v *Verifier) VerifyFunc(key string) (res *FuncResult) {
 		res.Trusted = true
 		return
 	}
+	termDefs = map[string]*Term{}
 	x := NewExec(v, fn, key, c)
 	res.x = x
 	x.noOverflow = c.NoOverflow
@@ -637,6 +639,8 @@ func (v *Verifier) VerifyFunc(key string) (res *FuncResult) {
 			x.oblige(o.st, "ensures", e.Name, g, fn.Pos(), e)
 		}
 		x.frameObligations(o.st, mods, fn.Pos())
+		// reachability probe: the hypotheses collected along this return path must not be contradictory
+		x.obls = append(x.obls, &Obligation{Fn: key, Kind: "reach", Label: key + "/vacuity/return-reachable", Hyps: append([]*Term(nil), o.st.hyps...), Goal: True, ExpectSat: true, Path: append([]int(nil), o.st.trace...)})
 	}
 	res.Obligations = x.obls
 	for _, o := range x.obls {
